@@ -203,6 +203,20 @@ class Check:
             "traces_cut_short_by_another_propertys_clause": self.truncated,
             "explanation": explanation,
         }
+        # vacuity report: actions of a model that were never taken in a run (an invariant about them was not exercised there);
+        # an action counts as exercised by the check if some run of the same module takes it
+        never, taken = {}, {}
+        for r in self.mc_runs:
+            for a, cnt in (r.get("action_coverage") or {}).items():
+                taken.setdefault(r["module"], set())
+                if cnt > 0:
+                    taken[r["module"]].add(a)
+        for r in self.mc_runs:
+            z = sorted(a for a, cnt in (r.get("action_coverage") or {}).items() if cnt == 0)
+            if z:
+                never[r["label"]] = z
+        cov["model_actions_never_taken_per_run"] = never
+        cov["model_actions_never_taken_in_any_run"] = {m: sorted({a for r in self.mc_runs if r["module"] == m for a in (r.get("action_coverage") or {})} - t) for m, t in taken.items()}
         cov.update(self.extra_cov)
         cov.update(self.notes)
         C.write_evidence(self.prop, self.tier, self.level, cov, wall, len(self.violations), self.assumptions)
